@@ -197,7 +197,9 @@ type retT struct {
 	first int
 }
 
-var retentions = []retT{{"60:1440", 60}, {"10s:1d", 10}, {"1s:1h,10s:1d", 1}, {"1m:30d,1h:5y", 60}, {"5:100,60:1000", 5}, {"2h:1y", 7200}, {"30s:6h , 5m:7d", 30}, {"1d:10y", 86400}, {"15:5760", 15}}
+// (numbers are decimal however they are padded: 060 is sixty)
+var retentions = []retT{{"60:1440", 60}, {"10s:1d", 10}, {"1s:1h,10s:1d", 1}, {"1m:30d,1h:5y", 60}, {"5:100,60:1000", 5}, {"2h:1y", 7200}, {"30s:6h , 5m:7d", 30}, {"1d:10y", 86400}, {"15:5760", 15},
+	{"060:01440", 60}, {"010:0100", 10}, {"0300:012", 300}, {"010s:1d", 10}, {"08:090", 8}}
 
 func genSchemas(t *rapid.T) ([]rule, string) {
 	n := rapid.IntRange(0, 6).Draw(t, "nrules")
@@ -211,7 +213,7 @@ func genSchemas(t *rapid.T) ([]rule, string) {
 		rt := rapid.SampledFrom(retentions).Draw(t, "ret")
 		r.ret, r.first = rt.s, rt.first
 		if rapid.IntRange(0, 2).Draw(t, "hasprio") == 0 {
-			p := rapid.SampledFrom([]int{0, 1, 1, 5, 100, -1}).Draw(t, "prio")
+			p := rapid.SampledFrom([]int{0, 1, 1, 5, 100, -1, 8, 9, 10, 64}).Draw(t, "prio")
 			r.priority = &p
 		}
 		rules = append(rules, r)
@@ -234,7 +236,11 @@ func genSchemas(t *rapid.T) ([]rule, string) {
 		eq := rapid.SampledFrom([]string{" = ", "=", " =", "= "}).Draw(t, "eq")
 		fmt.Fprintf(&sb, "pattern%s%s\n", eq, r.pattern)
 		if r.priority != nil {
-			fmt.Fprintf(&sb, "priority%s%d\n", eq, *r.priority)
+			if *r.priority > 0 && rapid.IntRange(0, 3).Draw(t, "paddedprio") == 0 {
+				fmt.Fprintf(&sb, "priority%s0%d\n", eq, *r.priority) // zero-padded, still decimal
+			} else {
+				fmt.Fprintf(&sb, "priority%s%d\n", eq, *r.priority)
+			}
 		}
 		fmt.Fprintf(&sb, "retentions%s%s\n", eq, r.ret)
 	}
